@@ -1142,6 +1142,11 @@ class Walker:
                 recv[1].split('::')[-1] == 'entry' and len(recv) >= 4:
             self.emit('call', n, pc, **data)
             return ('idx', recv[2], recv[3])
+        if name == 'contains' and len(args) == 2 and not cl[1] and ('str' in (recv_ty or '') or 'String' in (recv_ty or '')) \
+                and isinstance(args[1], tuple) and args[1][:1] == ('array',) and len(args[1]) > 1 \
+                and all(isinstance(a, tuple) and a[:1] == ('lit',) and isinstance(a[1], str) and len(a[1]) == 1 for a in args[1][1:]):
+            # str::contains(['a', 'b', ..]) (a char-set pattern): contains 'a' or contains 'b' ..
+            return mk_bool(Or(*[Atom(('is', ('get', recv, a), 'Some')) for a in args[1][1:]]))
         if name in ('contains_key', 'contains') and len(args) == 2 and _is_coll_type(recv_ty) and not cl[1]:
             if _is_map_type(recv_ty) or _is_set_type(recv_ty):
                 self.emit('query', n, pc, coll=recv, key=args[1], name=name, recv_ty=recv_ty)
